@@ -30,6 +30,7 @@ struct Keys {
     a: Keypair, // dialer-side honest identity
     b: Keypair, // listener-side honest identity
     r: Keypair, // rogue identity
+    w: Vec<u8>, // peer id bytes of the advertised small-order key (weakKey scenarios), else empty
 }
 
 /// canonical peer id bytes computed with libp2p-identity (independent of the code under test)
@@ -54,6 +55,8 @@ fn name_of(peer: &[u8], keys: &Keys) -> &'static str {
         "B"
     } else if peer == ref_peer_id(&keys.r) {
         "R"
+    } else if !keys.w.is_empty() && peer == keys.w {
+        "W"
     } else {
         "X"
     }
@@ -181,6 +184,8 @@ fn execute(sc: &Value, mv: Move, conc: usize, keys: &Keys, rt: &tokio::runtime::
         ("honest", "both") => (litep2p_side(ed, keys.a.clone(), Role::Dialer), litep2p_side(el, keys.b.clone(), Role::Listener)),
         ("honest", "dialer") => (litep2p_side(ed, keys.a.clone(), Role::Dialer), libp2p_side(el, &keys.b, false)),
         ("honest", "listener") => (libp2p_side(ed, &keys.a, true), litep2p_side(el, keys.b.clone(), Role::Listener)),
+        ("rogue", "dialer") if imp == "ref-libp2p" => (libp2p_side(ed, &keys.a, true), rogue_side(el, false, pv, conc, keys, &keys.b, seed)),
+        ("rogue", "listener") if imp == "ref-libp2p" => (rogue_side(ed, true, pv, conc, keys, &keys.a, seed), libp2p_side(el, &keys.b, false)),
         ("rogue", "dialer") => (litep2p_side(ed, keys.a.clone(), Role::Dialer), rogue_side(el, false, pv, conc, keys, &keys.b, seed)),
         ("rogue", "listener") => (rogue_side(ed, true, pv, conc, keys, &keys.a, seed), litep2p_side(el, keys.b.clone(), Role::Listener)),
         other => panic!("bad scenario {other:?} / {imp}"),
@@ -217,7 +222,7 @@ fn field_range(k: usize, field: &str, len: usize) -> (usize, usize) {
 }
 
 fn fresh_keys() -> Keys {
-    Keys { a: Keypair::generate(), b: Keypair::generate(), r: Keypair::generate() }
+    Keys { a: Keypair::generate(), b: Keypair::generate(), r: Keypair::generate(), w: vec![] }
 }
 
 fn run_scenario(b: &Value, thorough: bool, rng: &mut StdRng, rt: &tokio::runtime::Runtime, out: &mut Vec<String>, stats: &mut Value) {
@@ -232,7 +237,15 @@ fn run_scenario(b: &Value, thorough: bool, rng: &mut StdRng, rt: &tokio::runtime
     let mut concs: Vec<(Move, usize, Value)> = vec![];
     let fault = std::env::var("VERIF_FAULT").unwrap_or_default();
     if msg == 0 {
-        let n = if peer == "rogue" { if thorough { 24 } else { 4 } } else if thorough { 6 } else { 1 };
+        let n = if sc["pv"] == "weakKey" {
+            rogue::small_order_keys().len() * if thorough { 4 } else { 1 }
+        } else if peer == "rogue" {
+            if thorough { 24 } else { 4 }
+        } else if thorough {
+            6
+        } else {
+            1
+        };
         for c in 0..n {
             concs.push((pass.clone(), c, json!({"conc": c})));
         }
@@ -291,7 +304,22 @@ fn run_scenario(b: &Value, thorough: bool, rng: &mut StdRng, rt: &tokio::runtime
         }
     }
     for (mut mv, conc, cj) in concs {
-        let keys = fresh_keys();
+        let mut keys = fresh_keys();
+        if sc["pv"] == "weakKey" {
+            // inline peer id of the advertised small-order key
+            let ks = rogue::small_order_keys();
+            let mut id = vec![0x00, 0x24];
+            id.extend(rogue::key_pb(&ks[conc % ks.len()]));
+            keys.w = id;
+            // reference: the same rogue against libp2p-noise (recorded, not judged)
+            let mut rsc = sc.clone();
+            rsc["impl"] = json!("ref-libp2p");
+            let (rd, rl, _, _, _) = execute(&rsc, mv.clone(), conc, &keys, rt, rng.gen());
+            let r = if sc["trole"] == "dialer" { &rd } else { &rl };
+            let rname = if r.ok { name_of(&r.peer, &keys) } else { "" };
+            let k = format!("k{:02}_{}_ref_{}{}", conc % ks.len(), sc["trole"].as_str().unwrap(), if r.ok { "ok" } else { "err" }, rname);
+            stats["weak"][&k] = json!(stats["weak"][&k].as_u64().unwrap_or(0) + 1);
+        }
         if mv.kind == "substitute" {
             let (_, _, _, _, other) = execute(sc, pass.clone(), 0, &keys, rt, rng.gen());
             mv.with = other.msgs[msg - 1].clone();
@@ -340,6 +368,10 @@ fn run_scenario(b: &Value, thorough: bool, rng: &mut StdRng, rt: &tokio::runtime
                 }
                 let k = format!("{}_{}", outcome, if sc["peer"] == "rogue" { sc["pv"].as_str().unwrap() } else { mv_kind });
                 stats["outcomes"][&k] = json!(stats["outcomes"][&k].as_u64().unwrap_or(0) + 1);
+                if sc["pv"] == "weakKey" {
+                    let k = format!("k{:02}_{}_litep2p_{}{}", conc % rogue::small_order_keys().len(), role, outcome, pname);
+                    stats["weak"][&k] = json!(stats["weak"][&k].as_u64().unwrap_or(0) + 1);
+                }
                 out.push(json!({"e": "hs", "sc": sc, "conc": cj, "role": role, "outcome": outcome, "peer": pname,
                     "kind": o.kind.chars().take(80).collect::<String>(), "exp": b["exp"][role]}).to_string());
             }
@@ -354,18 +386,22 @@ fn execute_replay_aware(sc: &Value, mv: Move, conc: usize, keys: &Keys, rt: &tok
 
 // ------------------------------------------------------------------ dialed-peer expectation over TCP
 
-async fn node(kp: Keypair) -> litep2p::Litep2p {
+async fn node(kp: Keypair, ws: bool) -> litep2p::Litep2p {
     let (ping, _events) = litep2p::protocol::libp2p::ping::Config::default();
-    let cfg = litep2p::config::ConfigBuilder::new()
-        .with_keypair(kp)
-        .with_tcp(litep2p::transport::tcp::config::Config {
+    let builder = litep2p::config::ConfigBuilder::new().with_keypair(kp).with_libp2p_ping(ping);
+    let builder = if ws {
+        builder.with_websocket(litep2p::transport::websocket::config::Config {
+            listen_addresses: vec!["/ip4/127.0.0.1/tcp/0/ws".parse().unwrap()],
+            ..Default::default()
+        })
+    } else {
+        builder.with_tcp(litep2p::transport::tcp::config::Config {
             listen_addresses: vec!["/ip4/127.0.0.1/tcp/0".parse().unwrap()],
             ..Default::default()
         })
-        .with_libp2p_ping(ping)
-        .build();
+    };
     std::mem::forget(_events);
-    litep2p::Litep2p::new(cfg).expect("litep2p node")
+    litep2p::Litep2p::new(builder.build()).expect("litep2p node")
 }
 
 /// peer id of `kp` in the given multihash form: "inline" (identity code, canonical for Ed25519)
@@ -387,12 +423,12 @@ type TcpResult = ((String, String, String), Option<String>);
 /// `dialed` ("B": the listener's key, else another key) in multihash form `form`. The comparison
 /// is done by the real `negotiate_connection`. Returns the dialer's (outcome, peer name, detail)
 /// and, if it reported one, the peer the listener node saw; None if inconclusive.
-async fn tcp_case(dialed: &str, form: &str) -> Option<TcpResult> {
+async fn tcp_case(dialed: &str, form: &str, ws: bool) -> Option<TcpResult> {
     use litep2p::Litep2pEvent;
     let (ka, kb, kc) = (Keypair::generate(), Keypair::generate(), Keypair::generate());
-    let keys = Keys { a: ka.clone(), b: kb.clone(), r: kc.clone() };
-    let mut a = node(ka).await;
-    let mut b = node(kb.clone()).await;
+    let keys = Keys { a: ka.clone(), b: kb.clone(), r: kc.clone(), w: vec![] };
+    let mut a = node(ka, ws).await;
+    let mut b = node(kb.clone(), ws).await;
     let addr = b.listen_addresses().next().cloned()?;
     let expected = peer_id_in_form(if dialed == "B" { &kb } else { &kc }, form);
     // strip a trailing /p2p/.. of the listen address, then add the expectation
@@ -440,19 +476,26 @@ async fn tcp_case(dialed: &str, form: &str) -> Option<TcpResult> {
 /// The same expectation evaluated by calling the real `negotiate_connection` directly on both ends
 /// of a loopback TCP connection (dialer with `Some(expected)`, listener with `None`): observes the
 /// comparison itself, independent of what the connection manager does with the result.
-async fn negotiate_case(dialed: &str, form: &str) -> Option<TcpResult> {
+async fn negotiate_case(dialed: &str, form: &str, ws: bool) -> Option<TcpResult> {
     let (ka, kb, kc) = (Keypair::generate(), Keypair::generate(), Keypair::generate());
-    let keys = Keys { a: ka.clone(), b: kb.clone(), r: kc.clone() };
+    let keys = Keys { a: ka.clone(), b: kb.clone(), r: kc.clone(), w: vec![] };
     let expected = peer_id_in_form(if dialed == "B" { &kb } else { &kc }, form);
     let listener = tokio::net::TcpListener::bind("127.0.0.1:0").await.ok()?;
     let addr = listener.local_addr().ok()?;
     let (c, s) = tokio::join!(tokio::net::TcpStream::connect(addr), listener.accept());
     let (c, (s, from)) = (c.ok()?, s.ok()?);
     let t = Duration::from_secs(60);
-    let (rd, rl) = tokio::join!(
-        tcp_negotiate_connection(c, Some(expected), ka, Role::Dialer, addr, t),
-        tcp_negotiate_connection(s, None, kb, Role::Listener, from, t)
-    );
+    let (rd, rl) = if ws {
+        tokio::join!(
+            ws_negotiate_connection(c, Some(expected), ka, Role::Dialer, addr, t),
+            ws_negotiate_connection(s, None, kb, Role::Listener, from, t)
+        )
+    } else {
+        tokio::join!(
+            tcp_negotiate_connection(c, Some(expected), ka, Role::Dialer, addr, t),
+            tcp_negotiate_connection(s, None, kb, Role::Listener, from, t)
+        )
+    };
     let d = match rd {
         Ok(peer) => ("ok".to_string(), name_of(&peer.to_bytes(), &keys).to_string(), String::new()),
         Err(NegotiationError::Timeout) => return None, // machine stalled: not a verdict
@@ -482,7 +525,7 @@ fn main() {
                 let job = jobs.lock().unwrap().pop();
                 let Some((i, b)) = job else { break };
                 let mut lines = vec![];
-                let mut stats = json!({"outcomes": {}});
+                let mut stats = json!({"outcomes": {}, "weak": {}});
                 run_scenario(&b, thorough, &mut rng, &rt, &mut lines, &mut stats);
                 results.lock().unwrap().push((i, lines, stats));
             }
@@ -496,12 +539,16 @@ fn main() {
     let mut lines = vec![];
     let mut outcomes = std::collections::BTreeMap::<String, u64>::new();
     let mut not_applied = 0;
+    let mut weak = std::collections::BTreeMap::<String, u64>::new();
     for (_, l, s) in &res {
         lines.extend(l.iter().cloned());
         for (k, v) in s["outcomes"].as_object().unwrap() {
             *outcomes.entry(k.clone()).or_default() += v.as_u64().unwrap();
         }
         not_applied += s["not_applied"].as_u64().unwrap_or(0);
+        for (k, v) in s["weak"].as_object().unwrap() {
+            *weak.entry(k.clone()).or_default() += v.as_u64().unwrap();
+        }
     }
     // dialed-peer scenarios through real nodes
     let reps = args.u64("tcp-reps", 4);
@@ -511,15 +558,20 @@ fn main() {
         for b in &tcp {
             let dialed = b["sc"]["dialed"].as_str().unwrap().to_string();
             let form = b["sc"]["dialedForm"].as_str().unwrap().to_string();
-            for rep in 0..2 * reps {
-                // alternate: two full Litep2p nodes / the bare negotiate_connection on both ends
-                let via = if rep % 2 == 0 { "tcp" } else { "negotiate" };
+            for rep in 0..4 * reps {
+                // routes: two full Litep2p nodes / the bare negotiate_connection on both ends, over TCP and over WebSocket
+                let via = ["tcp", "negotiate", "ws", "wsnegotiate"][(rep % 4) as usize];
                 let mut got = None;
                 for _attempt in 0..3 {
                     // a fresh runtime per case; a panic of the code under test (e.g. a debug assertion in the
                     // connection manager) is an outcome, not a harness crash
                     let rt = tokio::runtime::Builder::new_multi_thread().worker_threads(2).enable_all().build().unwrap();
-                    let run = || if via == "tcp" { rt.block_on(tcp_case(&dialed, &form)) } else { rt.block_on(negotiate_case(&dialed, &form)) };
+                    let run = || match via {
+                        "tcp" => rt.block_on(tcp_case(&dialed, &form, false)),
+                        "ws" => rt.block_on(tcp_case(&dialed, &form, true)),
+                        "negotiate" => rt.block_on(negotiate_case(&dialed, &form, false)),
+                        _ => rt.block_on(negotiate_case(&dialed, &form, true)),
+                    };
                     got = match catch(run) {
                         Ok(g) => g,
                         Err(p) => Some((("panic".to_string(), String::new(), p.chars().take(80).collect()), None)),
@@ -545,5 +597,5 @@ fn main() {
     }
     write_lines(&out_path, &lines);
     println!("SUMMARY {}", json!({"scenarios": res.len() + tcp.len(), "runs": lines.len(), "outcomes": outcomes,
-        "move_not_applied": not_applied, "tcp_runs": tcp_runs, "tcp_inconclusive": tcp_inconclusive}));
+        "move_not_applied": not_applied, "weak_keys": weak, "tcp_runs": tcp_runs, "tcp_inconclusive": tcp_inconclusive}));
 }
